@@ -1,7 +1,7 @@
 SPECIFICATION TraceSpec
 CONSTANTS
   Prefixes = {"x1", "x2", "y1", "y2"}
-  KF = {"pfx", "stuck", "failconn", "lldrop", "llstuck"}
+  KF = {}
   Triage = TRUE
 CONSTRAINT TraceConstraint
 POSTCONDITION TraceAccepted
